@@ -23,7 +23,7 @@
 EXTENDS Naturals, Sequences, FiniteSets, TLC
 
 Locs == {"Unknown", "GoMod", "GOPATH", "GoPkg", "Stdlib"}
-RelShapes == {"empty", "github3", "github3ver", "github3verodd", "github3pseudo", "githubshort", "golangx", "golangxver", "golangother",
+RelShapes == {"empty", "github3", "github3ver", "github3verodd", "github3pseudo", "github3atfile", "githubshort", "golangx", "golangxver", "golangother",
               "otherhost", "otherhostver", "otherhostat", "otherhostatdir", "vendorgithub", "nodir"}
 Lit(s) == [kind |-> "lit", text |-> s, san |-> "lit"]
 Taint(f, san) == [kind |-> "taint", text |-> f, san |-> san]
@@ -36,9 +36,10 @@ SrcPieces(b) ==
            fileurl == IF b.local THEN <<Lit("file:///"), Taint("LocalSrcPath", "path")>>
                       ELSE IF b.remote THEN <<Lit("file:///"), Taint("RemoteSrcPath", "path")>>
                       ELSE <<>> IN
-       CASE r \in {"github3", "github3ver", "github3verodd", "github3pseudo"} ->
+       CASE r \in {"github3", "github3ver", "github3verodd", "github3pseudo", "github3atfile"} ->
               <<Lit("https://github.com/"), Taint("rel.owner", "path"), Lit("/"), Taint("rel.repo", "none"), Lit("/blob/"),
-                (IF r = "github3" THEN Lit("master") ELSE Taint("rel.version", "query")), Lit("/"), Taint("rel.rest", "path"), Lit("#L"), Lit("line")>>
+                \* "github3atfile": no version on the repository element, an '@' in the file name - part of the path, not a version
+                (IF r \in {"github3", "github3atfile"} THEN Lit("master") ELSE Taint("rel.version", "query")), Lit("/"), Taint("rel.rest", "path"), Lit("#L"), Lit("line")>>
          [] r \in {"golangx", "golangxver"} ->
               <<Lit("https://github.com/golang/"), Taint("rel.repo", "none"), Lit("/blob/"),
                 (IF r = "golangx" THEN Lit("master") ELSE Taint("rel.version", "query")), Lit("/"), Taint("rel.rest", "path"), Lit("#L"), Lit("line")>>
@@ -48,7 +49,7 @@ SrcPieces(b) ==
 Branch(b) ==
   IF b.loc = "Stdlib" THEN "version"
   ELSE LET r == IF b.rel = "vendorgithub" THEN "github3" ELSE b.rel IN
-       CASE r \in {"github3", "golangx"} -> "master"
+       CASE r \in {"github3", "github3atfile", "golangx"} -> "master"
          [] r \in {"github3ver", "github3verodd", "github3pseudo", "golangxver"} -> "version"
          \* other hosts: the tag is only handed back together with a file:/// link
          [] r = "otherhostver" -> IF b.local \/ b.remote THEN "version" ELSE ""
